@@ -32,7 +32,7 @@ BASE_INTERVALS = [
 def bounds(tier):
     if tier == "quick":
         return {"max_pos": 3, "max_neg": 3, "easy": [[0, 0], [1, 0], [0, 2], [2, 2]],
-                "grids": ["irregular", "int", "uint", "float32"], "intervals": len(BASE_INTERVALS) + 1}
+                "grids": ["irregular", "int", "uint", "float32", "ulp"], "intervals": len(BASE_INTERVALS) + 1}
     return {"max_pos": 4, "max_neg": 4, "easy": [[a, b] for a in range(4) for b in range(4)],
             "grids": ["irregular", "int", "dyadic", "ulp", "uint", "float32"], "intervals": len(BASE_INTERVALS) + 1}
 
